@@ -481,6 +481,20 @@ void World::setup() {
   Device* dev = sc.enhanced ? static_cast<Device*>(new EnhancedDevice(tr)) : static_cast<Device*>(new PlainDevice(tr));
   h = new DirectProtocolHandler(cfg, dev, &listener);
   for (const AnswerSpec& a : sc.answers) {
+    // every answer is registered twice under the same key: first with other content (other data / another tail
+    // length), then with the content the monitors know - the later registration is the registered answer
+    {
+      SlaveSymbolString decoy;
+      if (ref::isMaster(a.dst)) {
+        size_t n = a.answer.empty() ? 0 : a.answer[0];
+        size_t m = n + 1 <= 6 ? n + 1 : n - 1;
+        decoy.push_back((symbol_t)m);
+        for (size_t i = 0; i < m; i++) decoy.push_back(0xee);
+      } else {
+        decoy.push_back(0x02); decoy.push_back(0xee); decoy.push_back(0xdd);
+      }
+      h->setAnswer(a.src < 0 ? SYN : (symbol_t)a.src, a.dst, a.pb, a.sb, a.id.data(), a.id.size(), decoy);
+    }
     SlaveSymbolString ans;
     for (uint8_t b : a.answer) ans.push_back(b);
     h->setAnswer(a.src < 0 ? SYN : (symbol_t)a.src, a.dst, a.pb, a.sb, a.id.data(), a.id.size(), ans);
